@@ -191,12 +191,11 @@ impl<V: Variant> GenModel<V> {
                         let mut a = sgen.clone();
                         let more = self.stream.bytes(s.n, 6);
                         let mut same_future = true;
-                        if catch(|| {
-                            a.update(&more);
-                            dst.update(&more);
-                        })
-                        .is_err()
-                        {
+                        // a panic of the plain clone's own update is the Update action's finding, not clone_from's
+                        if catch(|| a.update(&more)).is_err() {
+                            break;
+                        }
+                        if catch(|| dst.update(&more)).is_err() {
                             same_future = false;
                         }
                         for o in Opts::all() {
